@@ -436,6 +436,7 @@ func runC10(r *Run) {
 	c10ResetThenEnd(r)
 	c10PendingReset(r)
 	c10ExpiredThenEnd(r)
+	c10ParkedThenEnd(r)
 	rng := r.Rand("c10")
 	maxH := r.Scale(3, 8)
 	stopped := map[string]bool{}
